@@ -254,7 +254,7 @@ func judgeOne(b *schedsim.Build, p *Program, sinks []Sink) (map[int][]Issue, err
 		argv = []string{"node", loader, exe}
 	}
 	for i, s := range sinks {
-		x, err := RunUnder(argv, s, dir, 30*time.Second)
+		x, err := RunUnder(argv, s, dir, 90*time.Second)
 		if err != nil {
 			return nil, fmt.Errorf("sink %s: %w", s, err)
 		}
